@@ -868,7 +868,7 @@ func main() {
 
 	// Phase A: schedule enumeration (worker subprocesses: one exploration per process) + free-running -race pass.
 	// It runs first so that its (bounded) cost is never squeezed out by the sequential enumeration's budget.
-	schedCov := schedulePhase(r, *raceBin, r.Budget*4/10)
+	schedCov, reportSched := schedulePhase(r, *raceBin, r.Budget*4/10)
 	tSeq := time.Now()
 
 	// Phase B: sequential enumeration
@@ -942,8 +942,8 @@ func main() {
 		r.Sample(map[string]any{"case": j.tc.name, "total_parts": j.tc.total, "catalogue_size": len(cat), "some_candidates": labels})
 	}
 
-	realBlock(3, 100)     // 1 part
-	realBlock(4, 40000)   // 3 parts
+	realBlock(3, 100)   // 1 part
+	realBlock(4, 40000) // 3 parts
 	if r.Thorough() {
 		realBlock(40, 40000) // ~25 parts
 	}
@@ -952,6 +952,7 @@ func main() {
 		r.Violation("good part rejected by a scratch set built from the header", map[string]any{"times": n})
 	}
 	pprof.StopCPUProfile()
+	reportSched()
 	schedCov["phase_wall_s"].(map[string]float64)["sequential"] = time.Since(tSeq).Seconds()
 
 	r.Assumptions = []string{
